@@ -7,7 +7,9 @@ from . import gen
 
 INT_POOL = [0, 1, 2, 3, 5, 7, 10, 42, 100]
 FLOAT_POOL = ["0.0", "1.0", "0.5", "1.5", "2.25", "10.0", "3.75"]
-STR_POOL = ["", "a", "b", "ab", "true", "@", "\\", "a b", "x-1", "12", "foo", "bar", "0", "quux", "A", "é", "é"]
+STR_POOL = ["", "a", "b", "ab", "true", "@", "\\", "a b", "x-1", "12", "foo", "bar", "0", "quux", "A", "é", "é",
+            # an escape and a multi-byte character in one literal
+            "a\"b", "\u00e9 \"q\"", "d\u00e9\\f", "\u4e2d\\\"", "\"", "\u00fc\\"]
 ASCII_STR_POOL = [s for s in STR_POOL if all(ord(c) < 128 for c in s)]
 FIELD_POOL = ["a", "b", "c", "ok", "desc", "true", "false", "a b", "x-1", "name", "val", "k1", "k2"]
 SIMPLE = ["int", "str", "bool", "float"]
@@ -728,6 +730,53 @@ class G:
         if T is not None:
             self.scope.append((nm, T))
 
+    def stmt_copy_self_after_call(self, stmts):
+        """a tuple copy whose field list first runs something with a frame of its own (module instantiation, function call,
+        callback, nested copy) and then reads `self`: `self` must still be the base tuple of THIS copy"""
+        r = self.r
+        names = r.sample(["a", "b", "c", "port", "n"], r.randint(2, 3))
+        tt = ("tuple", tuple((n, "int") for n in names))
+        t = self.fresh("t")
+        stmts.append(("let", t, ("tuple", [(n, ("int", r.randint(0, 9))) for n in names])))
+        self.scope.append((t, tt))
+        m = self.fresh("M")
+        stmts.append(("let", m, ("module", [("a", ("int", 1))], ("sym", "r"), [("let", "r", ("bin", "+", ("sel", ("sym", "mod"), ("f", "a")), ("int", 1)))])))
+        self.scope.append((m, ("module", (("a", "int"),), "int")))
+        f = self.fresh("f")
+        q = self.fresh("p")
+        stmts.append(("let", f, ("func", [q], ("bin", "+", ("sym", q), ("int", 1)))))
+        self.scope.append((f, ("func", ("int",), "int")))
+        n0, n1 = names[0], names[1]
+        T, S = ("sym", t), ("sym", "self")
+        inst = ("copy", ("sym", m), [("a", ("int", r.randint(0, 5)))])
+        call = ("call", ("sym", f), [("int", r.randint(0, 5))])
+        kind = r.randrange(8)
+        self.use("copy-self-after-%d" % kind)
+        if kind == 0:
+            e = ("copy", T, [(n0, inst), (n1, ("bin", "+", ("sel", S, ("f", n0)), ("int", 1)))])
+        elif kind == 1:
+            e = ("copy", T, [(n0, call), (n1, ("bin", "+", ("sel", S, ("f", n1)), ("int", 1)))])
+        elif kind == 2:
+            e = ("copy", T, [(n0, ("sel", ("list", [inst, ("sel", S, ("f", n1))]), ("i", 1)))])
+        elif kind == 3:
+            e = ("copy", T, [(n0, ("sel", ("copy", T, [(n0, inst), (n1, ("sel", S, ("f", n0)))]), ("f", n1))), (n1, ("sel", S, ("f", n0)))])
+        elif kind == 4:
+            cb = self.fresh("p")
+            e = ("copy", T, [(n0, ("sel", ("map", ("func", [cb], ("bin", "+", ("sym", cb), ("int", 1))), ("list", [("int", 1)])), ("i", 0))),
+                             (n1, ("sel", S, ("f", n0)))])
+        elif kind == 5:
+            e = ("copy", T, [(n0, ("select", ("bool", True), ("int", 0), [("true", inst)])), (n1, ("bin", "+", ("sel", S, ("f", n0)), ("int", 1)))])
+        elif kind == 6:
+            # the instantiation sits one copy further in, the reads of self one and two copies out
+            e = ("copy", T, [(n0, ("sel", ("copy", T, [(n0, ("sel", ("copy", T, [(n0, inst)]), ("f", n0))), (n1, ("bin", "+", ("sel", S, ("f", n1)), ("int", 10)))]), ("f", n1))),
+                             (n1, ("bin", "+", ("sel", S, ("f", n1)), ("int", 100)))])
+        else:
+            e = ("copy", T, [(n1, ("bin", "+", ("sel", S, ("f", n1)), ("int", 1))), (n0, inst), (n1, ("bin", "+", ("sel", S, ("f", n0)), call))]) if False else \
+                ("copy", T, [(n1, ("bin", "+", inst, ("sel", S, ("f", n1)))), (n0, ("bin", "+", call, ("sel", S, ("f", n0))))])
+        nm = self.fresh()
+        stmts.append(("let", nm, e))
+        self.scope.append((nm, tt))
+
     def stmt_module(self, d):
         r = self.r
         self.use("module")
@@ -813,6 +862,9 @@ class G:
                 continue
             elif x < 0.42:
                 if r.random() < 0.35 and self.stmt_append_func(stmts):
+                    continue
+                if r.random() < 0.3:
+                    self.stmt_copy_self_after_call(stmts)
                     continue
                 self.stmt_tuple_ops(stmts)
                 continue
